@@ -46,6 +46,17 @@ def mk(rng, tag, total, mtu=1500, v=4, stack_sack=None, cc='', passive=False, a=
                 deadline_ms=deadline_ms, run_ms=run_ms, flags={}, a=app, peer=p)
 
 
+def fam_cookie(rng, i):
+    """The real stack opens passively through a SYN cookie (as under a SYN flood): the peer's MSS survives only as an index into
+    a small table; whatever the table does, no segment may be larger than the MSS the peer put on its SYN."""
+    mss = [1400, 1000, 600, 1301, 1441, 1459, 537, 1299, 1200, 1439][i % 10]
+    sc = mk(rng, 'cookie%d-m%d' % (i, mss), 1, mtu=1500, v=4 if i % 3 else 6, passive=True, mss=mss, ts=False, ws=-1, sackperm=False,
+            ack_every=rng.choice([1, 2]), rules=[dict(on='up', do='write', bytes=rng.choice([60, 300]))])
+    sc['a']['writes'] = [rng.choice([6, 10, 14]) * mss + rng.choice([0, 1, 700])]
+    sc['cookie'] = True
+    return sc
+
+
 def eff_mss(sc):
     """payload limit the real stack must obey: the peer's MSS option (536 when absent) and its own MTU less headers and timestamp"""
     p = sc['peer']
@@ -452,6 +463,14 @@ def raw_peer(ctx, props, n_quick, n_thorough):
         scs = [sc for i, sc in enumerate(scs) if i not in dead]
         segs, stats, rep = tcplib.run_pair(ctx, drv, scs, props, name + 'b', what=what, classify=tcplib.classify_all, kind='rawpeer', judge_unfinished=True)
         stats['stack_panics'] = len(dead)
+    if 'C04' in props:
+        # SYN-cookie opens form a batch of their own (the switch is process-global in the driver)
+        csc = [dict(fam_cookie(rng, i), family='cookie') for i in range(ctx.pick(6, 30))]
+        csegs, cstats, crep = tcplib.run_pair(ctx, drv, csc, props, name + 'ck', what=what + ', SYN-cookie opens', classify=tcplib.classify_all, kind='rawpeer', judge_unfinished=True)
+        ndata = sum(1 for sg in csegs for e in sg if e.get('ev') == 'emit' and e.get('e') == 'a' and e.get('kind') == 'data')
+        ctx.extra['rawpeer_cookie_opens'] = dict(scenarios=len(csc), data_segments=ndata, stats=cstats)
+        if ndata == 0 and not crep:
+            raise vlib.Inconclusive('vacuity: no data segment was sent on a connection opened through a SYN cookie')
     fams = {}
     tot = {}
     per = []
